@@ -45,6 +45,16 @@ func aj(a *net.UDPAddr) addrJ {
 	return addrJ{Ip: sim.Hex(a.IP), Ipn: sim.Hex(a.IP.To16()), Port: a.Port, Fam: famOf(a.IP)}
 }
 
+// ajOf: the source as the node gets to see it. A transport that hands out some other net.Addr type has no byte form
+// of the IP to pass on: the node parses the textual form, which yields 16 bytes for every address
+func (h *H) ajOf(a *net.UDPAddr) addrJ {
+	j := aj(a)
+	if h.o.customAddr {
+		j.Ip = j.Ipn
+	}
+	return j
+}
+
 type inInfo struct {
 	q     string
 	ih    string
@@ -389,7 +399,7 @@ func (h *H) in(src *net.UDPAddr, q *query) {
 		h.lastPut = src
 	}
 	h.mu.Unlock()
-	h.tr.Emit(sim.M{"seg": h.seg, "e": "In", "src": aj(src), "drop": h.dropped(src), "dec": true, "y": y, "q": method,
+	h.tr.Emit(sim.M{"seg": h.seg, "e": "In", "src": h.ajOf(src), "drop": h.dropped(src), "dec": true, "y": y, "q": method,
 		"t": sim.Hex(q.t), "hasA": q.hasA, "veto": veto, "tok": sim.Hex(q.tok), "ih": ih, "port": port,
 		"implied": q.implied && q.hasA, "want4": w4, "want6": w6, "ro": q.ro})
 	if !h.conn.Inject(b, src, 10*time.Second) {
